@@ -137,7 +137,8 @@ claim(
     "caller's context, never a copy; every lookup failure class in get/get_async/_resolve is "
     "converted to env.undefined or the caller's default. Necessary conditions of 'innermost "
     "binding wins, block names vanish after the block, include shares scope, missing -> undefined'."
-    ' C14-ITEM: in both item getters element 0 is returned only for `first`, element -1 only for `last` (both only where the string guard is refuted by the path conditions), len() only for `size`, and the plain subscription only where the string_sequences guard is refuted.',
+    ' C14-ITEM: in both item getters element 0 is returned only for `first`, element -1 only for `last` (both only where the string guard is refuted by the path conditions), len() only for `size`, and the plain subscription only where the string_sequences guard is refuted.'
+    " C14-HIT: on a cache hit the reused template carries exactly the globals of the current request (C23's cache-hit rule, re-keyed).",
     "Not decided: the value a particular path resolves to on particular data (dotted/bracketed/"
     "negative-index/size/first/last semantics are value-level).",
     "DESIGN.md section 5 C14",
@@ -289,7 +290,8 @@ claim(
     "a possibly-undefined data value next to a possibly nil/bool/undefined one unless "
     "is_undefined excludes it on that path or both operands were unwrapped through __liquid__() "
     "(C16-RAWEQ); handlers that would swallow UndefinedError are listed (C16-SWALLOW)."
-    " C16-MISSING: the item getters leave only through KeyError/TypeError/IndexError (what RenderContext.get* turn into the undefined value); the 'first pair of a mapping' next() runs only for a non-empty object.",
+    " C16-MISSING: the item getters leave only through KeyError/TypeError/IndexError (what RenderContext.get* turn into the undefined value); the 'first pair of a mapping' next() runs only for a non-empty object."
+    ' The code that runs after a failed lookup (building the undefined value and its hint) cannot raise either: escape-engine findings sited in RenderContext.get*/_segments_str are C16-MISSING findings.',
     "Not decided: the rest of the first sentence (equal output of a strict render that succeeds) — "
     "value level. Kind inference treats values of unknown kind as not armed.",
     "DESIGN.md section 5 C16",
@@ -308,7 +310,8 @@ claim(
     "over several fields must not break or return) —; every filters slot is read by _extract_filters; the analyser's visit collects "
     "tags, expressions, scopes and children of every node. 2 open findings (implicit "
     "`translations` read; inline-snippet name) are listed in known_findings.jsonl."
-    ' C19-BALANCE: every scope frame _visit pushes is popped on every path before it returns. C19-KEY also reports partial names that collapse to a constant and shared-scope partials without a key (two open findings).',
+    ' C19-BALANCE: every scope frame _visit pushes is popped on every path before it returns. C19-KEY also reports partial names that collapse to a constant and shared-scope partials without a key (two open findings).'
+    " C19-SCOPE also decides conditional claims: partial_scope() adds the bound variable's name only under the guard its render method binds it under.",
     "Not decided: the analyser's scope bookkeeping and partial de-duplication over visit "
     "histories (a partial first visited inside a loop is not revisited outside it — recorded in "
     "DESIGN.md, not detectable by a shape rule). Sync/async parity: C01.",
@@ -350,7 +353,8 @@ claim(
     "points, sa/rx.py) and that is not a tokenizer keyword; the logical-expression "
     "serialiser brackets with the parser's binding powers (and/or equal, right grouping, not as "
     "operand, comparisons included). 3 open findings (nil/empty/blank print '') are listed."
-    " C04-VERBATIM: a node that keeps source text (the content node's text, the liquid tag's expression token) writes it back through copies, f-strings, concatenation and whole-text strip only.",
+    " C04-VERBATIM: a node that keeps source text (the content node's text, the liquid tag's expression token) writes it back through copies, f-strings, concatenation and whole-text strip only."
+    ' C04-TOKEN: no evaluate/render method reads the kind or text of the token a sub-expression was parsed from.',
     "Not decided: equality of the re-parsed tree / identical rendering for every template. The "
     "C04-PREC rule reads the bracket test of BooleanExpression.__str__ disjunct by disjunct in "
     "canonical form; a differently factored but equivalent rule is reported for review. Extra "
@@ -494,7 +498,8 @@ claim(
     "length) pair returned by the loop expression, `ncols` the cols value (or the length when "
     "there is none), by parameter name, in both twins, and each constructor stores them under "
     "the attribute the formulas read."
-    ' C13-BLANK: the loop nodes derive `blank` from every block they render, so the else output is never suppressed.',
+    ' C13-BLANK: the loop nodes derive `blank` from every block they render, so the else output is never suppressed.'
+    ' C13-ITER: every exit of _to_iter returns an iterator with exactly its number of items, and a scalar is one item only where it is known non-empty.',
     "Not decided: which items a particular collection/limit/offset combination yields, helper "
     "values along a run, tablerow HTML geometry for every cols value (value level).",
     "DESIGN.md section 5 C13",
